@@ -1,0 +1,873 @@
+//! Codec hooks for external verification harnesses (feature `verif`, off by default)
+//!
+//! Thin wrappers exposing crate-private wire codecs (packet numbers, frames, packet headers,
+//! address-validation tokens, reset tokens, transport-parameter fields) so that an out-of-tree
+//! harness can drive them with generated inputs. Nothing in here is used by the library itself
+//! and nothing changes behaviour: every function only calls the production encoder/decoder and
+//! converts the result into plain public data.
+
+use std::{
+    fmt::Write as _,
+    io,
+    net::{IpAddr, SocketAddr, SocketAddrV4, SocketAddrV6},
+};
+
+use bytes::{BufMut, Bytes};
+use rand_pcg::Pcg32;
+
+use crate::{
+    ConnectionId, ConnectionIdGenerator, Dir, Duration, EndpointConfig, LongType,
+    PacketDecodeError, PartialDecode, ServerConfig, TransportConfig, UNIX_EPOCH, VarInt,
+    coding::{BufExt, BufMutExt},
+    crypto::{HandshakeTokenKey, HeaderKey, HmacKey},
+    frame::{self, Frame},
+    packet::{Header, InitialHeader, PacketNumber},
+    range_set::ArrayRangeSet,
+    token::{ResetToken, Token, TokenPayload},
+    transport_parameters::{PreferredAddress, TransportParameters},
+};
+
+fn hex(out: &mut String, bytes: &[u8]) {
+    for b in bytes {
+        write!(out, "{b:02x}").unwrap();
+    }
+}
+
+// ---------------------------------------------------------------------------------------------
+// Packet numbers
+// ---------------------------------------------------------------------------------------------
+
+fn pn_from_parts(len: usize, truncated: u32) -> PacketNumber {
+    match len {
+        1 => PacketNumber::U8(truncated as u8),
+        2 => PacketNumber::U16(truncated as u16),
+        3 => PacketNumber::U24(truncated & 0x00ff_ffff),
+        4 => PacketNumber::U32(truncated),
+        _ => panic!("verif: packet number length must be 1..=4"),
+    }
+}
+
+fn pn_parts(pn: PacketNumber) -> (usize, u32) {
+    match pn {
+        PacketNumber::U8(x) => (1, x.into()),
+        PacketNumber::U16(x) => (2, x.into()),
+        PacketNumber::U24(x) => (3, x),
+        PacketNumber::U32(x) => (4, x),
+    }
+}
+
+/// `PacketNumber::new(n, largest_acked)` followed by `encode`: (encoded length, bytes)
+///
+/// Only the first `len` bytes of the array are meaningful.
+pub fn pn_encode(n: u64, largest_acked: u64) -> (usize, [u8; 4]) {
+    let pn = PacketNumber::new(n, largest_acked);
+    let mut out = [0u8; 4];
+    let mut w = &mut out[..];
+    pn.encode(&mut w);
+    let written = 4 - w.len();
+    debug_assert_eq!(written, pn.len());
+    (pn.len(), out)
+}
+
+/// `PacketNumber::decode(len, bytes)` followed by `expand(expected)`
+pub fn pn_decode_expand(bytes: &[u8], len: usize, expected: u64) -> Result<u64, PacketDecodeError> {
+    let mut r = bytes;
+    Ok(PacketNumber::decode(len, &mut r)?.expand(expected))
+}
+
+/// `PacketNumber::decode_len` on the first byte of a header
+pub fn pn_decode_len(first_byte: u8) -> usize {
+    PacketNumber::decode_len(first_byte)
+}
+
+/// Allocation-free composition used for exhaustive window sweeps:
+/// `new(n, largest_acked)` -> `encode` -> `decode` -> `expand(expected)`.
+///
+/// Returns (encoded length, truncated value as decoded, expanded packet number).
+#[inline]
+pub fn pn_roundtrip(n: u64, largest_acked: u64, expected: u64) -> (usize, u32, u64) {
+    let pn = PacketNumber::new(n, largest_acked);
+    let mut buf = [0u8; 4];
+    let mut w = &mut buf[..];
+    pn.encode(&mut w);
+    let mut r = &buf[..pn.len()];
+    let back = PacketNumber::decode(pn.len(), &mut r).expect("verif: pn decode of own encoding");
+    let (len, trunc) = pn_parts(back);
+    (len, trunc, back.expand(expected))
+}
+
+// ---------------------------------------------------------------------------------------------
+// Frames
+// ---------------------------------------------------------------------------------------------
+
+fn render_frame(f: &Frame) -> String {
+    let mut s = String::new();
+    match f {
+        Frame::Padding => s.push_str("PADDING"),
+        Frame::Ping => s.push_str("PING"),
+        Frame::Ack(ack) => {
+            write!(
+                s,
+                "ACK largest={} delay={} ranges=[",
+                ack.largest, ack.delay
+            )
+            .unwrap();
+            for (i, r) in ack.iter().enumerate() {
+                if i != 0 {
+                    s.push(',');
+                }
+                write!(s, "{}..={}", r.start(), r.end()).unwrap();
+            }
+            match ack.ecn {
+                None => s.push_str("] ecn=none"),
+                Some(e) => write!(s, "] ecn={},{},{}", e.ect0, e.ect1, e.ce).unwrap(),
+            }
+        }
+        Frame::ResetStream(x) => write!(
+            s,
+            "RESET_STREAM id={} code={} final={}",
+            u64::from(x.id),
+            x.error_code,
+            x.final_offset
+        )
+        .unwrap(),
+        Frame::StopSending(x) => write!(
+            s,
+            "STOP_SENDING id={} code={}",
+            u64::from(x.id),
+            x.error_code
+        )
+        .unwrap(),
+        Frame::Crypto(x) => {
+            write!(s, "CRYPTO off={} data=", x.offset).unwrap();
+            hex(&mut s, &x.data);
+        }
+        Frame::NewToken(x) => {
+            s.push_str("NEW_TOKEN token=");
+            hex(&mut s, &x.token);
+        }
+        Frame::Stream(x) => {
+            write!(
+                s,
+                "STREAM id={} off={} fin={} data=",
+                u64::from(x.id),
+                x.offset,
+                x.fin
+            )
+            .unwrap();
+            hex(&mut s, &x.data);
+        }
+        Frame::MaxData(x) => write!(s, "MAX_DATA max={x}").unwrap(),
+        Frame::MaxStreamData { id, offset } => {
+            write!(s, "MAX_STREAM_DATA id={} max={}", u64::from(*id), offset).unwrap()
+        }
+        Frame::MaxStreams { dir, count } => {
+            write!(s, "MAX_STREAMS dir={} max={}", dir_name(*dir), count).unwrap()
+        }
+        Frame::DataBlocked { offset } => write!(s, "DATA_BLOCKED limit={offset}").unwrap(),
+        Frame::StreamDataBlocked { id, offset } => write!(
+            s,
+            "STREAM_DATA_BLOCKED id={} limit={}",
+            u64::from(*id),
+            offset
+        )
+        .unwrap(),
+        Frame::StreamsBlocked { dir, limit } => {
+            write!(s, "STREAMS_BLOCKED dir={} limit={}", dir_name(*dir), limit).unwrap()
+        }
+        Frame::NewConnectionId(x) => {
+            write!(
+                s,
+                "NEW_CONNECTION_ID seq={} rpt={} cid=",
+                x.sequence, x.retire_prior_to
+            )
+            .unwrap();
+            hex(&mut s, &x.id);
+            s.push_str(" token=");
+            hex(&mut s, &x.reset_token);
+        }
+        Frame::RetireConnectionId { sequence } => {
+            write!(s, "RETIRE_CONNECTION_ID seq={sequence}").unwrap()
+        }
+        Frame::PathChallenge(x) => write!(s, "PATH_CHALLENGE {x:016x}").unwrap(),
+        Frame::PathResponse(x) => write!(s, "PATH_RESPONSE {x:016x}").unwrap(),
+        Frame::Close(frame::Close::Connection(x)) => {
+            let code = u64::from(x.error_code);
+            // `FrameType` has no integer accessor; recover the value through its codec
+            let ft = x.frame_type.map_or(0, |t| {
+                let mut b = Vec::new();
+                b.write(t);
+                (&b[..]).get_var().unwrap()
+            });
+            write!(s, "CONNECTION_CLOSE code={code} ft={ft} reason=").unwrap();
+            hex(&mut s, &x.reason);
+        }
+        Frame::Close(frame::Close::Application(x)) => {
+            write!(s, "APPLICATION_CLOSE code={} reason=", x.error_code).unwrap();
+            hex(&mut s, &x.reason);
+        }
+        Frame::Datagram(x) => {
+            s.push_str("DATAGRAM data=");
+            hex(&mut s, &x.data);
+        }
+        Frame::AckFrequency(x) => write!(
+            s,
+            "ACK_FREQUENCY seq={} thr={} mad={} reord={}",
+            x.sequence, x.ack_eliciting_threshold, x.request_max_ack_delay, x.reordering_threshold
+        )
+        .unwrap(),
+        Frame::ImmediateAck => s.push_str("IMMEDIATE_ACK"),
+        Frame::HandshakeDone => s.push_str("HANDSHAKE_DONE"),
+    }
+    s
+}
+
+fn dir_name(dir: Dir) -> &'static str {
+    match dir {
+        Dir::Bi => "bi",
+        Dir::Uni => "uni",
+    }
+}
+
+/// Decode a packet payload with the production `frame::Iter` and render every frame with all of
+/// its field values, one string per frame (PADDING yields one entry per byte, as `Iter` does)
+///
+/// An undecodable frame yields `Err("<frame type as reported> <reason>")`.
+pub fn decode_frames(payload: &[u8]) -> Result<Vec<String>, String> {
+    let iter = frame::Iter::new(Bytes::copy_from_slice(payload)).map_err(|e| e.to_string())?;
+    let mut out = Vec::new();
+    for f in iter {
+        match f {
+            Ok(f) => {
+                // also exercise the accessors production code calls on every frame
+                let _ = f.ty();
+                let _ = f.is_ack_eliciting();
+                out.push(render_frame(&f));
+            }
+            Err(e) => return Err(format!("{:?} {}", e.ty, e.reason)),
+        }
+    }
+    Ok(out)
+}
+
+/// Decode `payload` with `frame::Iter` and re-encode every frame
+///
+/// Frames with a standalone production encoder are written with it: `Ack::encode` (+
+/// `EcnCounts::encode`), `ResetStream::encode`, `StopSending::encode`, `Crypto::encode`,
+/// `NewToken::encode`, `StreamMeta::encode` + payload, `NewConnectionId::encode`,
+/// `Close::encode` (`ConnectionClose`/`ApplicationClose`), `Datagram::encode`,
+/// `AckFrequency::encode`.
+///
+/// Frames that production code writes inline (connection/mod.rs, connection/streams/state.rs:
+/// PADDING, PING, IMMEDIATE_ACK, HANDSHAKE_DONE, PATH_CHALLENGE, PATH_RESPONSE,
+/// RETIRE_CONNECTION_ID, MAX_DATA, MAX_STREAM_DATA, MAX_STREAMS, STREAMS_BLOCKED) are written by
+/// statements MIRRORING those inline writes (same `write`/`write_var` calls on the same types).
+/// DATA_BLOCKED and STREAM_DATA_BLOCKED are never sent by this implementation; they are mirrored
+/// by analogy with STREAMS_BLOCKED.
+///
+/// `length_on_last` selects whether a STREAM/DATAGRAM frame that is the last frame of the payload
+/// carries an explicit length (production omits it for the last STREAM frame of a packet and
+/// always writes it for DATAGRAM); every non-final STREAM/DATAGRAM frame gets a length.
+/// `close_max_len` is passed to `Close::encode` as the space available for the frame.
+pub fn reencode_frames(
+    payload: &[u8],
+    length_on_last: bool,
+    close_max_len: usize,
+) -> Result<Vec<u8>, String> {
+    let iter = frame::Iter::new(Bytes::copy_from_slice(payload)).map_err(|e| e.to_string())?;
+    let mut frames = Vec::new();
+    for f in iter {
+        frames.push(f.map_err(|e| format!("{:?} {}", e.ty, e.reason))?);
+    }
+    let mut buf: Vec<u8> = Vec::new();
+    let n = frames.len();
+    for (i, f) in frames.into_iter().enumerate() {
+        let length = i + 1 != n || length_on_last;
+        match f {
+            Frame::Padding => buf.push(0),
+            Frame::Ping => buf.write(frame::FrameType::PING),
+            Frame::ImmediateAck => buf.write(frame::FrameType::IMMEDIATE_ACK),
+            Frame::HandshakeDone => buf.write(frame::FrameType::HANDSHAKE_DONE),
+            Frame::Ack(ack) => {
+                let mut ranges = ArrayRangeSet::new();
+                for r in ack.iter() {
+                    ranges.insert(*r.start()..*r.end() + 1);
+                }
+                frame::Ack::encode(ack.delay, &ranges, ack.ecn.as_ref(), &mut buf);
+            }
+            Frame::ResetStream(x) => x.encode(&mut buf),
+            Frame::StopSending(x) => x.encode(&mut buf),
+            Frame::Crypto(x) => x.encode(&mut buf),
+            Frame::NewToken(x) => {
+                let before = buf.len();
+                x.encode(&mut buf);
+                if buf.len() - before != x.size() {
+                    return Err(format!(
+                        "NewToken::size() = {} but encode wrote {}",
+                        x.size(),
+                        buf.len() - before
+                    ));
+                }
+            }
+            Frame::Stream(x) => {
+                let meta = frame::StreamMeta {
+                    id: x.id,
+                    offsets: x.offset..x.offset + x.data.len() as u64,
+                    fin: x.fin,
+                };
+                meta.encode(length, &mut buf);
+                buf.put_slice(&x.data);
+            }
+            Frame::MaxData(x) => {
+                buf.write(frame::FrameType::MAX_DATA);
+                buf.write(x);
+            }
+            Frame::MaxStreamData { id, offset } => {
+                buf.write(frame::FrameType::MAX_STREAM_DATA);
+                buf.write(id);
+                buf.write_var(offset);
+            }
+            Frame::MaxStreams { dir, count } => {
+                buf.write(match dir {
+                    Dir::Uni => frame::FrameType::MAX_STREAMS_UNI,
+                    Dir::Bi => frame::FrameType::MAX_STREAMS_BIDI,
+                });
+                buf.write_var(count);
+            }
+            Frame::DataBlocked { offset } => {
+                buf.write(frame::FrameType::DATA_BLOCKED);
+                buf.write_var(offset);
+            }
+            Frame::StreamDataBlocked { id, offset } => {
+                buf.write(frame::FrameType::STREAM_DATA_BLOCKED);
+                buf.write(id);
+                buf.write_var(offset);
+            }
+            Frame::StreamsBlocked { dir, limit } => {
+                buf.write(match dir {
+                    Dir::Uni => frame::FrameType::STREAMS_BLOCKED_UNI,
+                    Dir::Bi => frame::FrameType::STREAMS_BLOCKED_BIDI,
+                });
+                buf.write_var(limit);
+            }
+            Frame::NewConnectionId(x) => x.encode(&mut buf),
+            Frame::RetireConnectionId { sequence } => {
+                buf.write(frame::FrameType::RETIRE_CONNECTION_ID);
+                buf.write_var(sequence);
+            }
+            Frame::PathChallenge(x) => {
+                buf.write(frame::FrameType::PATH_CHALLENGE);
+                buf.write(x);
+            }
+            Frame::PathResponse(x) => {
+                buf.write(frame::FrameType::PATH_RESPONSE);
+                buf.write(x);
+            }
+            Frame::Close(x) => {
+                let _ = x.is_transport_layer();
+                x.encode(&mut buf, close_max_len)
+            }
+            Frame::Datagram(x) => {
+                let before = buf.len();
+                x.encode(length, &mut buf);
+                if buf.len() - before != x.size(length) {
+                    return Err(format!(
+                        "Datagram::size({length}) = {} but encode wrote {}",
+                        x.size(length),
+                        buf.len() - before
+                    ));
+                }
+            }
+            Frame::AckFrequency(x) => x.encode(&mut buf),
+        }
+    }
+    Ok(buf)
+}
+
+// ---------------------------------------------------------------------------------------------
+// Packet headers
+// ---------------------------------------------------------------------------------------------
+
+/// Plain-data mirror of the crate-private `packet::Header`
+///
+/// Packet numbers are given in their encoded form: `pn_len` (1..=4) bytes carrying `pn`.
+#[derive(Debug, Clone, PartialEq, Eq)]
+#[allow(missing_docs)]
+pub enum VHeader {
+    Initial {
+        dst_cid: ConnectionId,
+        src_cid: ConnectionId,
+        token: Vec<u8>,
+        version: u32,
+        pn_len: usize,
+        pn: u32,
+    },
+    Long {
+        ty: LongType,
+        dst_cid: ConnectionId,
+        src_cid: ConnectionId,
+        version: u32,
+        pn_len: usize,
+        pn: u32,
+    },
+    Retry {
+        dst_cid: ConnectionId,
+        src_cid: ConnectionId,
+        version: u32,
+    },
+    Short {
+        spin: bool,
+        key_phase: bool,
+        dst_cid: ConnectionId,
+        pn_len: usize,
+        pn: u32,
+    },
+    VersionNegotiate {
+        random: u8,
+        dst_cid: ConnectionId,
+        src_cid: ConnectionId,
+    },
+}
+
+impl VHeader {
+    fn to_header(&self) -> Header {
+        match *self {
+            Self::Initial {
+                dst_cid,
+                src_cid,
+                ref token,
+                version,
+                pn_len,
+                pn,
+            } => Header::Initial(InitialHeader {
+                dst_cid,
+                src_cid,
+                token: Bytes::copy_from_slice(token),
+                number: pn_from_parts(pn_len, pn),
+                version,
+            }),
+            Self::Long {
+                ty,
+                dst_cid,
+                src_cid,
+                version,
+                pn_len,
+                pn,
+            } => Header::Long {
+                ty,
+                dst_cid,
+                src_cid,
+                number: pn_from_parts(pn_len, pn),
+                version,
+            },
+            Self::Retry {
+                dst_cid,
+                src_cid,
+                version,
+            } => Header::Retry {
+                dst_cid,
+                src_cid,
+                version,
+            },
+            Self::Short {
+                spin,
+                key_phase,
+                dst_cid,
+                pn_len,
+                pn,
+            } => Header::Short {
+                spin,
+                key_phase,
+                dst_cid,
+                number: pn_from_parts(pn_len, pn),
+            },
+            Self::VersionNegotiate {
+                random,
+                dst_cid,
+                src_cid,
+            } => Header::VersionNegotiate {
+                random,
+                dst_cid,
+                src_cid,
+            },
+        }
+    }
+
+    fn from_header(h: &Header) -> Self {
+        match *h {
+            Header::Initial(InitialHeader {
+                dst_cid,
+                src_cid,
+                ref token,
+                number,
+                version,
+            }) => {
+                let (pn_len, pn) = pn_parts(number);
+                Self::Initial {
+                    dst_cid,
+                    src_cid,
+                    token: token.to_vec(),
+                    version,
+                    pn_len,
+                    pn,
+                }
+            }
+            Header::Long {
+                ty,
+                dst_cid,
+                src_cid,
+                number,
+                version,
+            } => {
+                let (pn_len, pn) = pn_parts(number);
+                Self::Long {
+                    ty,
+                    dst_cid,
+                    src_cid,
+                    version,
+                    pn_len,
+                    pn,
+                }
+            }
+            Header::Retry {
+                dst_cid,
+                src_cid,
+                version,
+            } => Self::Retry {
+                dst_cid,
+                src_cid,
+                version,
+            },
+            Header::Short {
+                spin,
+                key_phase,
+                dst_cid,
+                number,
+            } => {
+                let (pn_len, pn) = pn_parts(number);
+                Self::Short {
+                    spin,
+                    key_phase,
+                    dst_cid,
+                    pn_len,
+                    pn,
+                }
+            }
+            Header::VersionNegotiate {
+                random,
+                dst_cid,
+                src_cid,
+            } => Self::VersionNegotiate {
+                random,
+                dst_cid,
+                src_cid,
+            },
+        }
+    }
+}
+
+/// `Header::encode`, append `payload`, then `PartialEncode::finish` (length field + header
+/// protection with `header_key`; no packet protection). Returns (packet bytes, header length).
+pub fn header_encode(h: &VHeader, payload: &[u8], header_key: &dyn HeaderKey) -> (Vec<u8>, usize) {
+    let header = h.to_header();
+    let mut buf = Vec::new();
+    let partial = header.encode(&mut buf);
+    let header_len = partial.header_len;
+    debug_assert_eq!(partial.start, 0);
+    buf.extend_from_slice(payload);
+    partial.finish(&mut buf, header_key, None);
+    // accessors production code uses on the typed header
+    let _ = (
+        header.is_protected(),
+        header.number(),
+        header.space(),
+        header.key_phase(),
+        header.is_short(),
+        header.is_1rtt(),
+        header.is_0rtt(),
+        header.dst_cid(),
+        header.has_frames(),
+    );
+    (buf, header_len)
+}
+
+/// Result of [`partial_decode_finish`]
+#[derive(Debug, Clone, PartialEq, Eq)]
+pub struct VPacket {
+    /// The fully decoded header
+    pub header: VHeader,
+    /// Bytes of the (unprotected) header
+    pub header_data: Vec<u8>,
+    /// Everything after the header
+    pub payload: Vec<u8>,
+    /// `Packet::reserved_bits_valid`
+    pub reserved_bits_valid: bool,
+}
+
+/// What the crate-private accessors of a `PartialDecode` report
+#[derive(Debug, Clone, PartialEq, Eq)]
+pub struct VPartial {
+    /// Packet bytes held by the partial decode
+    pub data: Vec<u8>,
+    /// Packet number space (0 Initial, 1 Handshake, 2 Data), if the packet has one
+    pub space: Option<usize>,
+    /// `has_long_header`
+    pub long: bool,
+    /// `is_initial`
+    pub initial: bool,
+    /// `is_0rtt`
+    pub zero_rtt: bool,
+    /// Token range and payload length of an Initial header
+    pub initial_token_pos_len: Option<(usize, usize, u64)>,
+}
+
+/// Crate-private accessors of `PartialDecode`
+pub fn partial_decode_info(pd: &PartialDecode) -> VPartial {
+    VPartial {
+        data: pd.data().to_vec(),
+        space: pd.space().map(|s| s as usize),
+        long: pd.has_long_header(),
+        initial: pd.is_initial(),
+        zero_rtt: pd.is_0rtt(),
+        initial_token_pos_len: pd
+            .initial_header()
+            .map(|h| (h.token_pos.start, h.token_pos.end, h.len)),
+    }
+}
+
+/// `PartialDecode::finish`: remove header protection with `header_key` and decode the packet
+/// number. `header_key` must be `Some` for protected packet types (as in production).
+pub fn partial_decode_finish(
+    pd: PartialDecode,
+    header_key: Option<&dyn HeaderKey>,
+) -> Result<VPacket, PacketDecodeError> {
+    let packet = pd.finish(header_key)?;
+    Ok(VPacket {
+        header: VHeader::from_header(&packet.header),
+        reserved_bits_valid: packet.reserved_bits_valid(),
+        header_data: packet.header_data.to_vec(),
+        payload: packet.payload.to_vec(),
+    })
+}
+
+/// `ConnectionId::encode_long` / `ConnectionId::decode_long` round trip helpers
+pub fn cid_encode_long(cid: &ConnectionId) -> Vec<u8> {
+    let mut v = Vec::new();
+    cid.encode_long(&mut v);
+    v
+}
+
+/// `ConnectionId::decode_long`: (cid, bytes consumed)
+pub fn cid_decode_long(bytes: &[u8]) -> Option<(ConnectionId, usize)> {
+    let mut r = io::Cursor::new(bytes);
+    let cid = ConnectionId::decode_long(&mut r)?;
+    Some((cid, r.position() as usize))
+}
+
+// ---------------------------------------------------------------------------------------------
+// Tokens
+// ---------------------------------------------------------------------------------------------
+
+/// Plain-data mirror of the crate-private `TokenPayload` (times in whole seconds since the epoch)
+#[derive(Debug, Clone, Copy, PartialEq, Eq)]
+#[allow(missing_docs)]
+pub enum VTokenPayload {
+    Retry {
+        address: SocketAddr,
+        orig_dst_cid: ConnectionId,
+        issued_secs: u64,
+    },
+    Validation {
+        ip: IpAddr,
+        issued_secs: u64,
+    },
+}
+
+/// `Token::new(payload, rng)` (nonce drawn from a PCG seeded with `nonce_seed`) + `Token::encode`
+///
+/// Returns (encoded token, nonce).
+pub fn token_encode(
+    key: &dyn HandshakeTokenKey,
+    payload: &VTokenPayload,
+    nonce_seed: u64,
+) -> (Vec<u8>, u128) {
+    let payload = match *payload {
+        VTokenPayload::Retry {
+            address,
+            orig_dst_cid,
+            issued_secs,
+        } => TokenPayload::Retry {
+            address,
+            orig_dst_cid,
+            issued: UNIX_EPOCH + Duration::from_secs(issued_secs),
+        },
+        VTokenPayload::Validation { ip, issued_secs } => TokenPayload::Validation {
+            ip,
+            issued: UNIX_EPOCH + Duration::from_secs(issued_secs),
+        },
+    };
+    let mut rng = Pcg32::new(nonce_seed, 0xa02b_dbf7_bb3c_0a7);
+    let token = Token::new(payload, &mut rng);
+    (token.encode(key), token.verif_nonce())
+}
+
+/// `Token::decode`: (payload, nonce), or `None` if the token does not decrypt / decode
+pub fn token_decode(key: &dyn HandshakeTokenKey, raw: &[u8]) -> Option<(VTokenPayload, u128)> {
+    let token = Token::verif_decode(key, raw)?;
+    let secs = |t: crate::SystemTime| {
+        t.duration_since(UNIX_EPOCH)
+            .map(|d| d.as_secs())
+            .unwrap_or(0)
+    };
+    let payload = match token.payload {
+        TokenPayload::Retry {
+            address,
+            orig_dst_cid,
+            issued,
+        } => VTokenPayload::Retry {
+            address,
+            orig_dst_cid,
+            issued_secs: secs(issued),
+        },
+        TokenPayload::Validation { ip, issued } => VTokenPayload::Validation {
+            ip,
+            issued_secs: secs(issued),
+        },
+    };
+    Some((payload, token.verif_nonce()))
+}
+
+/// `ResetToken::new(key, cid)`: (raw bytes, `Display` rendering)
+pub fn reset_token(key: &dyn HmacKey, cid: &ConnectionId) -> ([u8; 16], String) {
+    let t = ResetToken::new(key, *cid);
+    let mut raw = [0u8; 16];
+    raw.copy_from_slice(&t);
+    let same = t == ResetToken::from(raw);
+    debug_assert!(same);
+    (raw, t.to_string())
+}
+
+// ---------------------------------------------------------------------------------------------
+// Transport parameters
+// ---------------------------------------------------------------------------------------------
+
+/// Plain-data mirror of `PreferredAddress`
+#[derive(Debug, Clone, Copy, PartialEq, Eq)]
+#[allow(missing_docs)]
+pub struct VPreferredAddress {
+    pub address_v4: Option<SocketAddrV4>,
+    pub address_v6: Option<SocketAddrV6>,
+    pub connection_id: ConnectionId,
+    pub stateless_reset_token: [u8; 16],
+}
+
+/// Read-only view of every field of `TransportParameters`
+#[derive(Debug, Clone, PartialEq, Eq)]
+#[allow(missing_docs)]
+pub struct VTransportParameters {
+    pub max_idle_timeout: u64,
+    pub max_udp_payload_size: u64,
+    pub initial_max_data: u64,
+    pub initial_max_stream_data_bidi_local: u64,
+    pub initial_max_stream_data_bidi_remote: u64,
+    pub initial_max_stream_data_uni: u64,
+    pub initial_max_streams_bidi: u64,
+    pub initial_max_streams_uni: u64,
+    pub ack_delay_exponent: u64,
+    pub max_ack_delay: u64,
+    pub active_connection_id_limit: u64,
+    pub disable_active_migration: bool,
+    pub max_datagram_frame_size: Option<u64>,
+    pub initial_src_cid: Option<ConnectionId>,
+    pub grease_quic_bit: bool,
+    pub min_ack_delay: Option<u64>,
+    pub original_dst_cid: Option<ConnectionId>,
+    pub retry_src_cid: Option<ConnectionId>,
+    pub stateless_reset_token: Option<[u8; 16]>,
+    pub preferred_address: Option<VPreferredAddress>,
+    /// Whether a reserved ("grease") parameter will be written
+    pub has_grease_transport_parameter: bool,
+    /// Serialization order, if one is set (outgoing parameters only)
+    pub write_order: Option<Vec<u8>>,
+}
+
+/// Field access for `TransportParameters`
+pub fn tp_fields(p: &TransportParameters) -> VTransportParameters {
+    let tok = |t: &ResetToken| {
+        let mut raw = [0u8; 16];
+        raw.copy_from_slice(t);
+        raw
+    };
+    VTransportParameters {
+        max_idle_timeout: p.max_idle_timeout.into_inner(),
+        max_udp_payload_size: p.max_udp_payload_size.into_inner(),
+        initial_max_data: p.initial_max_data.into_inner(),
+        initial_max_stream_data_bidi_local: p.initial_max_stream_data_bidi_local.into_inner(),
+        initial_max_stream_data_bidi_remote: p.initial_max_stream_data_bidi_remote.into_inner(),
+        initial_max_stream_data_uni: p.initial_max_stream_data_uni.into_inner(),
+        initial_max_streams_bidi: p.initial_max_streams_bidi.into_inner(),
+        initial_max_streams_uni: p.initial_max_streams_uni.into_inner(),
+        ack_delay_exponent: p.ack_delay_exponent.into_inner(),
+        max_ack_delay: p.max_ack_delay.into_inner(),
+        active_connection_id_limit: p.active_connection_id_limit.into_inner(),
+        disable_active_migration: p.disable_active_migration,
+        max_datagram_frame_size: p.max_datagram_frame_size.map(VarInt::into_inner),
+        initial_src_cid: p.initial_src_cid,
+        grease_quic_bit: p.grease_quic_bit,
+        min_ack_delay: p.min_ack_delay.map(VarInt::into_inner),
+        original_dst_cid: p.original_dst_cid,
+        retry_src_cid: p.retry_src_cid,
+        stateless_reset_token: p.stateless_reset_token.as_ref().map(tok),
+        preferred_address: p.preferred_address.map(|a| VPreferredAddress {
+            address_v4: a.address_v4,
+            address_v6: a.address_v6,
+            connection_id: a.connection_id,
+            stateless_reset_token: tok(&a.stateless_reset_token),
+        }),
+        has_grease_transport_parameter: p.grease_transport_parameter.is_some(),
+        write_order: p.write_order.map(|o| o.to_vec()),
+    }
+}
+
+/// Server-only transport parameters, for [`tp_new`]
+#[derive(Debug, Clone, Copy, Default)]
+#[allow(missing_docs)]
+pub struct VServerOnly {
+    pub original_dst_cid: Option<ConnectionId>,
+    pub retry_src_cid: Option<ConnectionId>,
+    pub stateless_reset_token: Option<[u8; 16]>,
+    pub preferred_address: Option<VPreferredAddress>,
+}
+
+/// `TransportParameters::new` (the production constructor: includes a random reserved parameter
+/// and a random serialization order, both drawn from a PCG seeded with `seed`), then the
+/// server-only fields a server connection fills in afterwards
+pub fn tp_new(
+    config: &TransportConfig,
+    endpoint_config: &EndpointConfig,
+    cid_gen: &dyn ConnectionIdGenerator,
+    initial_src_cid: ConnectionId,
+    server_config: Option<&ServerConfig>,
+    server_only: &VServerOnly,
+    seed: u64,
+) -> TransportParameters {
+    let mut rng = Pcg32::new(seed, 0xa02b_dbf7_bb3c_0a7);
+    let mut p = TransportParameters::new(
+        config,
+        endpoint_config,
+        cid_gen,
+        initial_src_cid,
+        server_config,
+        &mut rng,
+    );
+    p.original_dst_cid = server_only.original_dst_cid;
+    p.retry_src_cid = server_only.retry_src_cid;
+    p.stateless_reset_token = server_only.stateless_reset_token.map(Into::into);
+    p.preferred_address = server_only.preferred_address.map(|a| PreferredAddress {
+        address_v4: a.address_v4,
+        address_v6: a.address_v6,
+        connection_id: a.connection_id,
+        stateless_reset_token: a.stateless_reset_token.into(),
+    });
+    p
+}
